@@ -56,7 +56,7 @@ FIELDS = dict(ev="", op="", c=0, busy_http=False, busy_https=False,
               outcome="", arg_http=-1, arg_https=-1, http_port=-1,
               https_port=-1, http_started=False, https_started=False,
               up_http=False, up_https=False, cb_threads=0, srv_threads=0,
-              open_srv=0, logger_ok=True)
+              open_srv=0, logger_ok=True, consts_ok=True)
 
 NOENV = dict(busy_http=False, busy_https=False, bad_cert=False)
 
@@ -266,6 +266,10 @@ class LifeScenario:
                 lg.name.startswith("pywbem.listener.") and
                 len(lg.name) > len("pywbem.listener.") and
                 lg.name != self.decoy.logger.name)
+            cf = self.certfile if "https" in self.ports else None
+            snap["consts_ok"] = bool(
+                li.host == "localhost" and li.certfile == cf and
+                li.keyfile == cf and li.max_ind_queue_size == self.maxq)
         except Exception:  # noqa: a property raised
             snap["logger_ok"] = False
         for name in ("http", "https"):
@@ -401,6 +405,22 @@ class LifeScenario:
         finally:
             sched.end()
 
+    def drive(self, chooser, max_steps):
+        """Like Sched.run, but the execution is complete when the program and
+        the senders are: callback threads of a listener that the program did
+        not stop would otherwise poll for ever."""
+        sched = self.sched
+        sched.wait_quiet()
+        while sched.steps < max_steps:
+            fg = [t for n, t in sched.ts.items() if not n.startswith("cb")]
+            if all(t.state == "done" for t in fg):
+                return "done"
+            rd = sched.ready()
+            if not rd:
+                return "deadlock"
+            sched.grant(chooser(rd, sched))
+        return "budget"
+
     def run(self, chooser, max_steps=4000):
         self.install()
         sched = self.sched
@@ -415,13 +435,17 @@ class LifeScenario:
             for t in ths:
                 t.start()
             try:
-                outcome = sched.run(chooser, max_steps)
+                outcome = self.drive(chooser, max_steps)
             except S.Deadlock as exc:
                 outcome = "machinery:" + str(exc)
             sched.emit(ev="end", outcome=outcome)
             return outcome
         finally:
             sched.release_all()
+            # a listener the program left running: let its callback threads
+            # end (machinery cleanup; the leftover was recorded in the events)
+            for t in self.cb_threads:
+                t.stop_event.set()
             for srv in self.servers:
                 srv._ev.set()
                 if srv.socket is not None:
@@ -594,6 +618,11 @@ def run_real(program, ports_cfg, init_cbs, workdir, rng):
         snap["logger_ok"] = bool(
             lg is logger0 and lg.name.startswith("pywbem.listener.") and
             lg.name != decoy.logger.name)
+        cf = certfile if "https" in ports else None
+        snap["consts_ok"] = bool(
+            li.host == "127.0.0.1" and li.certfile == cf and
+            li.keyfile == cf and
+            li.max_ind_queue_size == L.DEFAULT_MAX_IND_QUEUE_SIZE)
         alive = [t for t in threading.enumerate() if t.is_alive()]
         snap["cb_threads"] = sum(1 for t in alive if t.name == "CallbackThread")
         snap["srv_threads"] = sum(1 for t in alive if t.name in ports)
